@@ -104,7 +104,7 @@ typedef struct of_2d_parity_cb
 	/* the two fields below exist in of_linear_binary_code_cb_t: this control block is cast to that
 	 * type by the IT/ML decoders, so the layouts must be identical up to the callbacks. */
 	void		** tmp_tab_symbols;
-	UINT16		nb_tmp_symbols;
+	UINT32		nb_tmp_symbols;
 #endif /* } OF_USE_DECODER */
 
 	void 		**encoding_symbols_tab;
